@@ -17,6 +17,12 @@ thread_local! {
     static FORBID: Cell<bool> = const { Cell::new(false) };
     static FORBID_HITS: Cell<u64> = const { Cell::new(0) };
     static MAXREQ: Cell<usize> = const { Cell::new(0) };
+    /// live bytes at the start of the measurement window
+    static BASE: Cell<isize> = const { Cell::new(0) };
+    /// net bytes allocated by harness code inside the window (not the library's)
+    static OFFSET: Cell<isize> = const { Cell::new(0) };
+    /// peak tracking is suspended while harness code runs inside the window
+    static PAUSED: Cell<bool> = const { Cell::new(false) };
 }
 
 /// Single requests above this size are refused (null => Rust aborts).
@@ -29,11 +35,15 @@ fn on_alloc(size: usize) {
     let _ = LIVE.try_with(|l| {
         let v = l.get() + size as isize;
         l.set(v);
-        let _ = PEAK.try_with(|p| {
-            if v > p.get() {
-                p.set(v)
-            }
-        });
+        let paused = PAUSED.try_with(|p| p.get()).unwrap_or(true);
+        if !paused {
+            let rel = v - BASE.try_with(|b| b.get()).unwrap_or(0) - OFFSET.try_with(|o| o.get()).unwrap_or(0);
+            let _ = PEAK.try_with(|p| {
+                if rel > p.get() {
+                    p.set(rel)
+                }
+            });
+        }
     });
     let _ = COUNT.try_with(|c| c.set(c.get() + 1));
     let _ = MAXREQ.try_with(|m| {
@@ -42,7 +52,7 @@ fn on_alloc(size: usize) {
         }
     });
     let _ = FORBID.try_with(|f| {
-        if f.get() {
+        if f.get() && !PAUSED.try_with(|p| p.get()).unwrap_or(true) {
             let _ = FORBID_HITS.try_with(|h| h.set(h.get() + 1));
         }
     });
@@ -108,16 +118,48 @@ pub fn count() -> u64 {
     COUNT.with(|c| c.get())
 }
 
-/// Start a measurement window: peak := live, max request := 0. Returns live.
+/// Start a measurement window: base := live, harness offset := 0, peak := 0, max request := 0.
 pub fn window_start() -> isize {
     let l = live();
-    PEAK.with(|p| p.set(l));
+    BASE.with(|b| b.set(l));
+    OFFSET.with(|o| o.set(0));
+    PAUSED.with(|p| p.set(false));
+    PEAK.with(|p| p.set(0));
     MAXREQ.with(|m| m.set(0));
     l
 }
 
+/// Peak of (live - base - harness bytes) since the window started.
 pub fn peak() -> isize {
     PEAK.with(|p| p.get())
+}
+
+/// Net bytes the harness allocated inside the window.
+pub fn offset() -> isize {
+    OFFSET.with(|o| o.get())
+}
+
+/// Harness code starts inside the window. Returns a token for `resume`.
+pub fn pause() -> (isize, bool) {
+    let was = PAUSED.with(|p| p.replace(true));
+    (live(), was)
+}
+
+/// Harness code ends; `handed` bytes of what it allocated now belong to the library.
+pub fn resume(token: (isize, bool), handed: isize) {
+    let (l0, was) = token;
+    if was {
+        return; // nested harness section: the outermost one accounts for everything
+    }
+    let d = live() - l0 - handed;
+    OFFSET.with(|o| o.set(o.get() + d));
+    PAUSED.with(|p| p.set(false));
+    let rel = live() - BASE.with(|b| b.get()) - OFFSET.with(|o| o.get());
+    PEAK.with(|p| {
+        if rel > p.get() {
+            p.set(rel)
+        }
+    });
 }
 
 pub fn max_request() -> usize {
